@@ -86,6 +86,8 @@ class Guard:
         self.relations = set()
         self.full = Region.full(f_integer, unsigned=f_integer)
         self.depth = 0
+        self.affine = {}         # local id -> (path, c): the local holds `path - c` (unsigned subtraction before the tests)
+        self.panics = Region.empty(f_integer)   # values of f on which check_ref neither accepts nor rejects but overflows
         self.lossy_locals = {}   # local id -> conversion name: bound to a narrowed copy of a parameter
         self.lossy_tests = set()  # (path, conversion): a range test evaluated on a narrowed copy
 
@@ -216,6 +218,14 @@ class Guard:
             if op in ("<", "<=", ">", ">=", "==", "!="):
                 lp, rp = self.path_of(n["l"]), self.path_of(n["r"])
                 lc, rc = self.const_of(n["l"]), self.const_of(n["r"])
+                # a local that holds `param - c`: `local op k` is `param op k + c`
+                l0, r0 = peel_refs(n["l"]), peel_refs(n["r"])
+                if l0.get("k") == "Path" and l0.get("local") in self.affine and rc is not None:
+                    ap, ac = self.affine[l0["local"]]
+                    return self.value_region(ap, op, rc + ac, l0)
+                if r0.get("k") == "Path" and r0.get("local") in self.affine and lc is not None:
+                    ap, ac = self.affine[r0["local"]]
+                    return self.value_region(ap, {"<": ">", ">": "<", "<=": ">=", ">=": "<=", "==": "==", "!=": "!="}[op], lc + ac, r0)
                 flip = {"<": ">", ">": "<", "<=": ">=", ">=": "<=", "==": "==", "!=": "!="}
                 if lp is not None and rc is not None:
                     self.note_lossy(lp, n["l"])
@@ -438,6 +448,16 @@ class Guard:
                 i0 = strip(init)
                 if i0.get("k") == "Match" and i0.get("src") == "TryDesugar":
                     return self.try_helper(i0, inp)
+                if i0.get("k") == "Binary" and i0["op"] == "-" and s["pat"].get("k") == "Bind":
+                    ap, ac = self.path_of(i0["l"]), self.const_of(i0["r"])
+                    ty = (self.c.ty(peel_refs(i0["l"]).get("t")) or "").strip().lstrip("&")
+                    if ap is not None and ac is not None and ty in ("usize", "u8", "u16", "u32", "u64"):
+                        # unsigned `param - c` evaluated before any test: for param < c it overflows (a panic with overflow
+                        # checks, a wrap-around to a huge valid-looking value without)
+                        self.affine[s["pat"]["local"]] = (ap, ac)
+                        low = self.value_region(ap, "<", ac, peel_refs(i0["l"])).intersect(inp)
+                        self.panics = self.panics.union(low)
+                        return inp.minus(low)
                 self.effect(init)
             return inp
         if kk == "If":
@@ -606,7 +626,9 @@ def analyse_check_ref(fn, builder, table):
         integer = field_is_integer(types.get(p))
         g = Guard(fn, p, {q: v for q, v in wit.items() if q != p}, integer)
         g.run_value(fn["body"], g.full)
-        total = g.err.union(g.ok)
+        total = g.err.union(g.ok).union(g.panics)
+        if not g.panics.is_empty():
+            PANICS_FOUND.setdefault(id(fn), {})[p] = repr(g.panics)
         if not (total == g.full):
             raise Unclassified("paths do not cover the domain of `%s`: err=%s ok=%s" % (p, g.err, g.ok))
         regions[p] = (g.ok, integer, types.get(p))
@@ -617,6 +639,7 @@ def analyse_check_ref(fn, builder, table):
 
 
 LOSSY_FOUND = {}
+PANICS_FOUND = {}
 
 
 def canon_rel(r):
@@ -650,6 +673,9 @@ def rule_range(ctx):
         for (lp_, cv_) in sorted(LOSSY_FOUND.get(id(fn), ())):
             res.instance("%s : %s tested on itself" % (key, lp_))
             res.violate("%s : test-on-converted-value:%s" % (key, lp_), "the range test of `%s` is evaluated on a narrowed copy (`%s`): values that round across the bound (1e-50 -> 0, 1 + 1e-12 -> 1) are accepted or rejected by the copy, not by the parameter" % (lp_, cv_), fn_loc(fn))
+        for pp_, reg_ in sorted(PANICS_FOUND.get(id(fn), {}).items()):
+            res.instance("%s : %s rejected without arithmetic on it" % (key, pp_))
+            res.violate("%s : overflow-before-test:%s" % (key, pp_), "check_ref subtracts from the unsigned parameter `%s` before testing it: for %s the subtraction overflows - a panic with overflow checks, a wrap-around to a huge accepted value without - instead of the documented error" % (pp_, reg_), fn_loc(fn))
         for p in sorted(regions):
             got, integer, ty = regions[p]
             want = parse_spec(table.get(p, "any"), integer).intersect(Region.full(integer, unsigned=integer))
